@@ -572,6 +572,16 @@ func ruleAliasHelperPartner(w *World, r *RuleResult) {
 			if cnt := countKey(r, key); cnt > 0 {
 				key = fmt.Sprintf("%s #%d", key, cnt+1)
 			}
+			// one alias helper delegating to the other with its own (partner, view) parameters: the pair is
+			// judged at this helper's own call sites
+			if fn := w.shortName(f); fn == "(*BigInt).innerOrAlias" || fn == "(*BigInt).innerOrNilOrAlias" {
+				pa, okA := a[2].(*ssa.Parameter)
+				pv, okV := a[3].(*ssa.Parameter)
+				if okA && okV && len(f.Params) >= 4 && pa == f.Params[2] && pv == f.Params[3] && a[0] == ssa.Value(f.Params[0]) {
+					r.ok(key, w.instrPos(c), "forwards its own partner and view parameters: judged at the call sites of "+fn, false)
+					continue
+				}
+			}
 			// every leaf of the view value must be a view of the partner object
 			ok := true
 			var leaves func(v ssa.Value, d int)
